@@ -1250,6 +1250,8 @@ where
                     if offset_table.is_none() {
                         offset_table = Some(Vec::new())
                     }
+                    // (an empty first item yields no value token)
+                    first = false;
                 }
                 LazyDataToken::ItemStart { len: _ } => { /* no-op */ }
                 LazyDataToken::SequenceEnd => {
